@@ -3,6 +3,7 @@ package main
 // SMT layer: sorts, declarations, term helpers.
 
 import (
+	"sync"
 	"fmt"
 	"go/types"
 	"sort"
@@ -90,6 +91,10 @@ func (d *Decls) axiom(text string) {
 	d.axioms = append(d.axioms, text)
 }
 
+// keyed axioms that were included in at least one solver script of this run
+var usedKeyed = map[string]bool{}
+var usedKeyedMu sync.Mutex
+
 type keyedAxiom struct {
 	text string
 	keys []string
@@ -129,6 +134,9 @@ func (d *Decls) KeyedAxioms(body string) string {
 		for _, key := range k.keys {
 			if strings.Contains(body, "("+key+" ") {
 				sb.WriteString("(assert " + k.text + ")\n")
+				usedKeyedMu.Lock()
+				usedKeyed[k.text] = true
+				usedKeyedMu.Unlock()
 				break
 			}
 		}
